@@ -54,17 +54,17 @@ MC = {
 
 PROPS = {
     "C01": dict(mc=["tcp_oneway", "ux_oneway", "tcp_twoway"], paths=["tcp_oneway", "ux_oneway"],
-                tps=["tcp", "ux", "uxf", "tls", "utls", "utlst", "tcp", "ux"], raw=0.0, profile="C01"),
-    "C02": dict(mc=["btcp_oneway", "btcp_inj"], paths=["btcp_oneway"], tps=["btcp", "btls", "btcp"], raw=0.0, profile="C02"),
+                tps=["tcp", "ux", "uxf", "tls", "utls", "utlst", "tcp", "ux"], raw=0.0, profile="C01", blocking=0.25),
+    "C02": dict(mc=["btcp_oneway", "btcp_inj"], paths=["btcp_oneway"], tps=["btcp", "btls", "btcp"], raw=0.0, profile="C02", blocking=0.35),
     "C03": dict(mc=["tcp_oneway", "ux_oneway", "btcp_oneway"], paths=["tcp_oneway"],
-                tps=["tcp", "ux", "btcp", "uxf", "tls", "utls", "btls", "utlst"], raw=0.0, profile="C03"),
+                tps=["tcp", "ux", "btcp", "uxf", "tls", "utls", "btls", "utlst"], raw=0.0, profile="C03", blocking=0.3),
     "C06": dict(mc=["tcp_oneway_inj", "btcp_inj", "ux_twoway"], dev=[("tcp_dev_epipe", "C06_DrainFirst", "epipe_closes")],
                 paths=["tcp_oneway_inj", "btcp_inj"], tps=["tcp", "btcp", "ux", "uxf", "tcp", "tls", "btls", "utls"], raw=0.25, profile="C06"),
     "C07": dict(mc=["tcp_hostile"], paths=["tcp_hostile"], tps=["tcp"], raw=1.0, profile="default"),
     "C16": dict(mc=["tcp_cond", "ux_twoway", "btcp_oneway"], paths=["tcp_cond"], tps=["tcp", "btcp", "ux", "uxf"], raw=0.0, profile="C16"),
     "C17": dict(mc=["tcp_oneway", "ux_oneway", "btcp_oneway", "tcp_twoway"], paths=["tcp_oneway", "ux_oneway", "btcp_oneway"],
-                tps=["tcp", "ux", "btcp", "uxf", "tls", "btls", "utls", "utlst"], raw=0.0, profile="C17"),
-    "C04": dict(mc=["tcp_cond", "tcp_twoway", "ux_twoway"], paths=["tcp_cond"], tps=["tcp", "btcp", "ux", "uxf"], raw=0.0, profile="C04"),
+                tps=["tcp", "ux", "btcp", "uxf", "tls", "btls", "utls", "utlst"], raw=0.0, profile="C17", blocking=0.15),
+    "C04": dict(mc=["tcp_cond", "tcp_twoway", "ux_twoway"], paths=["tcp_cond"], tps=["tcp", "btcp", "ux", "uxf"], raw=0.0, profile="C04", blocking=0.4),
     "C05": dict(mc=["tcp_oneway"], paths=["tcp_oneway"], tps=["tcp", "btcp", "ux", "uxf"], raw=0.1, profile="default"),
 }
 
@@ -242,6 +242,9 @@ def check(pid, tier, seed, only_random=False):
         if rnd.random() < spec["raw"] and tp == "tcp":
             scripts.append(conn.gen_raw_exec(rnd, xid, tp))
             origin[xid] = ("raw", None)
+        elif rnd.random() < spec.get("blocking", 0.0):
+            scripts.append(conn.gen_exec(rnd, xid, tp, "blocking"))
+            origin[xid] = ("blocking", None)
         else:
             scripts.append(conn.gen_exec(rnd, xid, tp, spec["profile"]))
             origin[xid] = ("random", None)
